@@ -104,6 +104,69 @@ def run(ctx):
                            f' (must-hold-at-entry of {f.name} = {LS.entry[f.name]})')
     r.require_min(8, 'registry accesses')
 
+    # ---------------- R18e no search result survives a release of the registry lock inside the function that found it
+    r = ctx.rule('R18e', 'a pointer read from the registry list is not used for list surgery after the lock was released and re-taken',
+                 'find-under-read-lock, unlink-under-write-lock uses a stale predecessor: another create/destroy in the gap corrupts the list')
+    from ..cfg import reaches_without as _rw
+    n_reg = 0
+    for f in P.fns.values():
+        if f.mod is not em:
+            continue
+        regptr = set()
+        for ins in f.insts():
+            if ins.op == 'load' and ins.ty.endswith('*'):
+                root, steps = access_path(P, f, ins.ops[0])
+                fl = fields_in_path(steps)
+                if root == '@active_instances' or ('ec_backend', 'link') in fl:
+                    regptr.add(ins.res)
+        if not regptr:
+            continue
+        # closure over phis / casts
+        changed = True
+        origin = {v: {v} for v in regptr}
+        while changed:
+            changed = False
+            for ins in f.insts():
+                if ins.res and ins.op in ('phi', 'bitcast', 'select'):
+                    ops = [v for v, _ in ins.incoming] if ins.op == 'phi' else ins.ops
+                    src = set().union(*[origin.get(o, set()) for o in ops if isinstance(o, str)])
+                    if src - origin.get(ins.res, set()):
+                        origin.setdefault(ins.res, set()).update(src); changed = True
+        unlocks = [i for i in f.insts() if i.op == 'call' and i.callee in lockset.REL]
+        for v, srcs in origin.items():
+            for use in f.insts():
+                if use.op != 'store':
+                    continue
+                # list surgery: a store whose address is a field of the registry pointer, or which stores through it
+                ad = f.defs.get(use.ops[1])
+                base = None
+                if ad is not None and ad.op == 'getelementptr':
+                    b0 = ad.ops[0]
+                    while f.defs.get(b0) is not None and f.defs[b0].op in ('getelementptr', 'bitcast'):
+                        b0 = f.defs[b0].ops[0]
+                    base = b0
+                if base != v:
+                    continue
+                n_reg += 1
+                stale = None
+                for sv in srcs:
+                    d = f.defs[sv]
+                    for u in unlocks:
+                        # def -> unlock -> use, without re-executing the def in between
+                        if _rw(f, d.bb, lambda i, u=u: i is u, lambda i: False, d.idx + 1) is not None and \
+                           _rw(f, u.bb, lambda i, use=use: i is use, lambda i, d=d: i is d, u.idx + 1) is not None:
+                            stale = (d, u)
+                inst = f'{f.name}: store through a registry pointer at line {use.line}'
+                if stale:
+                    r.fail(inst, func=f.name, sig='registry pointer used for a store after the lock was released', loc=use.loc,
+                           msg=f'the pointer read from the registry at line {stale[0].line} is still used for the store at line {use.line} after the unlock at line '
+                               f'{stale[1].line}: another thread may have inserted or removed elements in between')
+                else:
+                    r.ok(inst + ': found and used within one critical section', func=f.name, loc=use.loc)
+    if not n_reg:
+        r.ok('no store through a pointer read from the registry list (insertion at the head / removal walk the list inside one section)', loc=em.src, trivial=True)
+    r.require_min(1)
+
     # ---------------- R18b
     r = ctx.rule('R18b', 'GF table refcount and table (de)allocation are serialised by one mutex',
                  'two first creates (or create vs last destroy) race on init_counter/log_table: double alloc, NULL table, use after free')
